@@ -69,6 +69,13 @@ def generate(tier, seed):
                 steps = block(obs) + [o] + block(obs)
                 cases.append(case("eng", sp, adapter_M(uniq), "-", steps))
                 dist["exhaustive"] += 1
+            # the observed domain holds a grouping rule that was stored while automatic link building was off (stored, not
+            # linked): a call confined to another domain must not build it (nor anything else in the observed domain)
+            pre = ["EB:0", A("g", "g", [rnd.choice(SUBS), "admin", obs]), A("p", "p", prule("admin", obs, "data1")), "EB:1"]
+            for o in rnd.sample(ops, 12 if tier == "quick" else 40) + [RF("g", "g", 2, ["d2"]), RF("g", "g", 0, ["alice", "", "d3"]), "drs:alice:d2"]:
+                steps = pre + block(obs) + [o] + block(obs)
+                cases.append(case("eng", sp, adapter_M(uniq), "-", steps))
+                dist["unbuilt_link"] = dist.get("unbuilt_link", 0) + 1
             for _ in range(3):
                 n = rnd.choice([5, 20, 60])
                 steps = block(obs)
@@ -81,7 +88,8 @@ def generate(tier, seed):
         "exhaustive": False,
         "rule": ("RBAC-with-domains models under all four effect rules, 3 domains sharing the same user/role/object names; random small stores; every single "
                  "call confined to a domain other than the observed one (adds, removes, batches, filtered removals constraining the domain column, RBAC helpers "
-                 "with Some(domain)) and random confined histories up to length 60; all decisions and role queries of the observed domain before and after every "
+                 "with Some(domain)) and random confined histories up to length 60; the same from states in which the observed domain holds a "
+                 "grouping rule stored while automatic link building was switched off; all decisions and role queries of the observed domain before and after every "
                  "call. non-trivial = the observed domain grants something"),
         "distribution": dist,
     }
